@@ -15,6 +15,8 @@ fn main() {
         "C07" => dispatch::<props::c07::C07>(&args, &verif),
         "C08" => dispatch::<props::c08::C08>(&args, &verif),
         "C09" => dispatch::<props::c09::C09>(&args, &verif),
+        "C11" => dispatch::<props::c11::C11>(&args, &verif),
+        "C12" => dispatch::<props::c12::C12>(&args, &verif),
         "C13" => dispatch::<props::c13::C13>(&args, &verif),
         "C14" => dispatch::<props::c14::C14>(&args, &verif),
         _ => {
